@@ -2,6 +2,7 @@ package main
 
 import (
 	"fmt"
+	"strconv"
 	"go/types"
 	"strings"
 
@@ -69,6 +70,26 @@ func (x *Exec) intrinsic(name string, fn *ssa.Function, args []Value) (Value, bo
 		return nil, false
 	}
 	switch name[dot+1:] {
+	case "verifParse":
+		// parse once per worker, share the (frozen) Program between paths
+		src := mustStr(args[0])
+		if x.inCachedParse {
+			return nil, false
+		}
+		if v, ok := x.parseCache[src]; ok {
+			return v, true
+		}
+		x.inCachedParse = true
+		savedPC, savedDec, savedPre, savedWork := x.pc, x.decision, x.prefix, x.work
+		v := x.call(fn, args, nil)
+		x.inCachedParse = false
+		if len(x.decision) != len(savedDec) {
+			panic("verifParse made symbolic decisions")
+		}
+		x.pc, x.decision, x.prefix, x.work = savedPC, savedDec, savedPre, savedWork
+		freeze(v, map[interface{}]bool{})
+		x.parseCache[src] = v
+		return v, true
 	case "verifByte":
 		return x.freshInput("b", 8), true
 	case "verifRune":
@@ -124,10 +145,12 @@ func (x *Exec) intrinsic(name string, fn *ssa.Function, args []Value) (Value, bo
 			}
 			return nil, true
 		}
-		if !x.solver.feasible(x.pc, c) {
+		if ok, m := x.feas(c); !ok {
 			panic(abortPath{"assume infeasible", true})
+		} else if m != nil {
+			x.model = m
 		}
-		x.pc = append(x.pc, c)
+		x.addPC(c)
 		return nil, true
 	case "verifReach":
 		x.res.Reach[mustStr(args[0])]++
@@ -141,6 +164,37 @@ func (x *Exec) intrinsic(name string, fn *ssa.Function, args []Value) (Value, bo
 	case "verifAssert":
 		x.assert(args[0].(*Term), mustStr(args[1]))
 		return nil, true
+	case "verifOpaqueKind":
+		switch s := args[0].(type) {
+		case *OpaqueStr:
+			if s.kind == "int" {
+				return BV(1, 64), true
+			}
+			return BV(2, 64), true
+		case *Str:
+			c, ok := s.concrete()
+			if !ok {
+				panic(abortPath{"verifOpaqueKind of symbolic text", false})
+			}
+			if _, err := strconv.ParseInt(c, 10, 64); err == nil {
+				return BV(1, 64), true
+			}
+			if _, err := strconv.ParseFloat(c, 64); err == nil {
+				return BV(2, 64), true
+			}
+			return BV(0, 64), true
+		}
+		panic("verifOpaqueKind")
+	case "verifOpaqueInt":
+		switch s := args[0].(type) {
+		case *OpaqueStr:
+			return s.num, true
+		case *Str:
+			c, _ := s.concrete()
+			v, _ := strconv.ParseInt(c, 10, 64)
+			return BV(uint64(v), 64), true
+		}
+		panic("verifOpaqueInt")
 	case "verifEventCount":
 		want := mustStr(args[0])
 		n := 0
@@ -270,8 +324,10 @@ func (x *Exec) assert(c *Term, msg string) {
 	}
 	x.report(Not(c), msg, false)
 	// continue on the side where the assertion holds
-	if !x.solver.feasible(x.pc, c) {
+	if ok, m := x.feas(c); !ok {
 		panic(abortPath{"assert always fails here", true})
+	} else if m != nil {
+		x.model = m
 	}
-	x.pc = append(x.pc, c)
+	x.addPC(c)
 }
